@@ -31,6 +31,12 @@ type Model struct {
 	Ever [2][NTargets]bool
 	// HasHandle[b][t]: a handle from a lookup in the current epoch exists (for retained use).
 	HasHandle [2][NTargets]bool
+	// KeptOK[b][t]: the handle of the first lookup exists and has not been superseded by a fresh
+	// lookup made while the mocker was cancelled (which creates a new mocker in the builder).
+	KeptOK    [2][NTargets]bool
+	firstSeen [2][NTargets]bool
+	cancelled [2][NTargets]bool // the builder's current mocker for t carries the cancelled flag
+	zombie    [2][NTargets]bool // re-applied through the kept handle after a Cancel/Reset
 }
 
 // Resolve maps the g2 targets according to the builder's pending override.
@@ -54,6 +60,14 @@ func (m *Model) Enabled(op Op) bool {
 	}
 	t := m.Resolve(op)
 	c := &m.Cfg[op.B][t]
+	if op.Kept && (!m.KeptOK[op.B][op.T] || op.K > KApplyO || op.Retained) {
+		return false
+	}
+	if !op.Kept && m.zombie[op.B][op.T] {
+		// after a re-apply through a kept, cancelled handle a fresh lookup would create a second
+		// mocker for the same target; which of the two a later Cancel addresses is not specified
+		return false
+	}
 	if op.Retained && (!m.HasHandle[op.B][op.T] || op.K == KCancel) {
 		return false // a retained handle exists only after a lookup in the same epoch
 	}
@@ -95,6 +109,10 @@ func (m *Model) Do(op Op) {
 			}
 			m.Cfg[op.B][t] = Cfg{}
 			m.HasHandle[op.B][t] = false
+			if m.firstSeen[op.B][t] {
+				m.cancelled[op.B][t] = true
+			}
+			m.zombie[op.B][t] = false
 			m.clean(t)
 		}
 		return
@@ -103,8 +121,21 @@ func (m *Model) Do(op Op) {
 		return
 	}
 	t := m.Resolve(op)
-	if !op.Retained {
+	if !op.Retained && !op.Kept {
 		m.PkgOver[op.B] = false // every lookup consumes the override
+		if !m.firstSeen[op.B][op.T] {
+			m.firstSeen[op.B][op.T], m.KeptOK[op.B][op.T] = true, true
+		} else if m.cancelled[op.B][op.T] {
+			// a fresh lookup of a cancelled mocker creates a new one: the kept handle is orphaned
+			m.KeptOK[op.B][op.T] = false
+		}
+		m.cancelled[op.B][op.T] = false
+	}
+	if op.Kept && m.cancelled[op.B][op.T] {
+		m.zombie[op.B][op.T] = true
+	}
+	if op.K == KCancel {
+		m.cancelled[op.B][op.T] = true
 	}
 	m.HasHandle[op.B][op.T] = op.K != KCancel
 	c := &m.Cfg[op.B][t]
